@@ -271,3 +271,37 @@ Theorem C06_launcher_source_nonvacuous :
     [(0,0); (0,1); (0,2); (1,0); (1,1); (1,2); (2,0); (2,1); (2,2)].
 Proof. exact KV.Proofs.LaunchSrcProofs.launcher_source_example. Qed.
 Print Assumptions C06_launcher_source_is_model.
+
+(** CPU vs GPU KERNEL BODIES, from the source text.  Gen/WaveEvalSrc.v is regenerated on every run from wave_sim.py by
+    translate/gen_wave_eval.py (fail-closed syntax-directed translation; every access to the waveform memory must be in the
+    column of the kernel's own lane variable, so the generated functions see ONE lane).  wave_capture_cpu and the thread body
+    of wave_capture_gpu -- restricted to sd = 0 -- are each proved equal to the model [capture] (the eight values that reach
+    s[3..10]), hence to each other: the "CPU vs GPU capture" clause is a theorem about the two source texts.  The merge
+    kernel _wave_eval is ONE function used by both paths (wave_eval_cpu = numba.njit(_wave_eval), _wave_eval_gpu =
+    cuda.jit(_wave_eval, device=True)); its translation is proved equal to the model in C03_kernel_source_is_model. *)
+From KV Require Import Model.Time Model.WaveEval Model.WaveSrcPrelude Gen.WaveEvalSrc.
+From KV Require Proofs.WaveEvalSrcProofs Proofs.WaveSelectSrc.
+Theorem C06_capture_cpu_source_is_model : forall tcap w,
+  WaveCaptureCpuSrc.capture_src tcap w = KV.Proofs.WaveEvalSrcProofs.WaveCaptureCpuSrcProofs.model_result w tcap.
+Proof. exact KV.Proofs.WaveEvalSrcProofs.WaveCaptureCpuSrcProofs.capture_source_is_model. Qed.
+
+Theorem C06_capture_gpu_source_is_model : forall tcap w,
+  WaveCaptureGpuSrc.capture_src tcap w = KV.Proofs.WaveEvalSrcProofs.WaveCaptureGpuSrcProofs.model_result w tcap.
+Proof. exact KV.Proofs.WaveEvalSrcProofs.WaveCaptureGpuSrcProofs.capture_source_is_model. Qed.
+
+Theorem C06_capture_cpu_gpu_same_source_model : forall tcap w,
+  WaveCaptureCpuSrc.capture_src tcap w = WaveCaptureGpuSrc.capture_src tcap w.
+Proof. exact KV.Proofs.WaveEvalSrcProofs.capture_cpu_gpu_same. Qed.
+
+Theorem C06_capture_source_example :
+  WaveCaptureCpuSrc.capture_src (Fin 6) [MinInf; Fin 3; Fin 7; Fin 9; MaxOvl; MaxInf] =
+    (true, Fin 3, Fin 9, 0%Z, 0%Z, 0%Z, 0%Z, 1%Z) /\
+  WaveCaptureGpuSrc.capture_src (Fin 6) [Fin 2; Fin 5; Fin 8; MaxInf] = (false, Fin 2, Fin 8, 1%Z, 0%Z, 0%Z, 0%Z, 0%Z).
+Proof. exact KV.Proofs.WaveEvalSrcProofs.capture_source_example. Qed.
+
+(** the dataset selection of the source (the `if len(delays) > 1:` prologue of _wave_eval, shape pinned by the translator) is the
+    [select_idx] of the dataset theorems above, its mode-2 parameter being the source's four LCG rounds *)
+Theorem C06_select_source_is_model : forall nd mode seed ctl0 zidx,
+  WaveEvalSrc.select_idx_src (Z.of_nat nd) (Z.of_nat mode) (Z.of_nat seed) (Z.of_nat ctl0) (Z.of_nat zidx) =
+  Z.of_nat (select_idx KV.Proofs.WaveSelectSrc.pick2_src nd mode seed ctl0 zidx).
+Proof. exact KV.Proofs.WaveSelectSrc.select_idx_src_is_model. Qed.
